@@ -61,6 +61,64 @@ def api_ops(names, values):
     return ["n:%s" % hexs(n) for n in names] + ["s:%s:%d" % (hexs(n), v) for n in names for v in values]
 
 
+MUT_OPS = ["md", "mo", "ma", "vd", "vo", "va", "ln", "lv"]   # read a container through the API and edit what was returned
+
+
+def gen_api_mut(bits):
+    """<1-2 calls> <read a container and edit it> <0-2 calls>: all views must still show the state the calls built"""
+    mx = 4294967295 if bits else 2147483647
+    pre = ["n:61", "n:62", "s:61:0", "s:61:5", "s:62:5", "s:62:%d" % mx]
+    post = ["n:61", "n:62", "n:63", "s:61:0", "s:63:1", "s:63:%d" % mx]
+    out = []
+    for k in (1, 2):
+        for p in itertools.product(pre, repeat=k):
+            for m in MUT_OPS:
+                for j in (0, 1, 2):
+                    for q in itertools.product(post, repeat=j):
+                        out.append(api_case(bits, list(p) + [m] + list(q)))
+    for ms in itertools.product(MUT_OPS, repeat=2):
+        out.append(api_case(bits, ["n:61", "s:62:5", ms[0], "n:63", ms[1], "n:64"]))
+    return out
+
+
+# ---- members with other substatements, through a typedef shared by two leaves (enummod)
+SUBS = [("-", "-"), ("c", "-"), ("-", "c"), ("d", "-"), ("-", "d"), ("o", "-"), ("-", "o"), ("D", "-"), ("-", "r"),
+        ("f", "-"), ("Dr", "of"), ("fo", "D")]
+SUBS3 = [("-", "-"), ("o", "-"), ("-", "o"), ("-", "d"), ("D", "-")]
+MODVALS = [None, "0", "1", "-1", "5", "2147483647", "4294967295"]
+
+
+def mod_case(bits, members):
+    return "enummod %d %s" % (bits, ",".join("%s:%s:%s:%s" % (n, "~" if v is None else hexs(v), a, b) for n, v, (a, b) in members))
+
+
+def gen_mod(tier, seed):
+    rnd = random.Random(seed ^ 0x14B)
+    cases = []
+    names = ["a", "b", "c", "d", "e", "f"]
+    for bits in (0, 1):
+        for k in (1, 2):
+            for vs in itertools.product(MODVALS, repeat=k):
+                for ss in itertools.product(SUBS, repeat=k):
+                    cases.append(mod_case(bits, list(zip(names, vs, ss))))
+        for vs in itertools.product([None, "1", "5"], repeat=3):
+            for ss in itertools.product(SUBS3, repeat=3):
+                cases.append(mod_case(bits, list(zip(names, vs, ss))))
+        # an obsolete / deprecated member in a duplicate name, duplicate value, or holding the maximum
+        mx = "4294967295" if bits else "2147483647"
+        for sa in SUBS:
+            for sb in SUBS3:
+                cases.append(mod_case(bits, [("a", "1", sa), ("a", None, sb), ("b", None, ("-", "-"))]))
+                cases.append(mod_case(bits, [("a", "1", sa), ("b", "1", sb), ("c", None, ("-", "-"))]))
+                cases.append(mod_case(bits, [("a", mx, sa), ("b", None, sb)]))
+                cases.append(mod_case(bits, [("a", None, ("-", "-")), ("b", "7", sa), ("c", None, sb), ("d", None, ("-", "-"))]))
+        for _ in range(1500 if tier == "quick" else 40000):
+            k = rnd.randint(3, 6)
+            nm = [rnd.choice(names) if rnd.random() < 0.1 else names[i] for i in range(k)]
+            cases.append(mod_case(bits, [(nm[i], rnd.choice(MODVALS + [None, None, "9", "8", "-7"]), rnd.choice(SUBS)) for i in range(k)]))
+    return cases
+
+
 def gen_api(tier, seed):
     rnd = random.Random(seed ^ 0xC14)
     cases = []
@@ -79,6 +137,7 @@ def gen_api(tier, seed):
         for first in two:
             for bad in two:
                 cases.append(api_case(bits, [first, bad, "n:%s" % hexs("c"), "n:%s" % hexs("d"), bad, "n:%s" % hexs("e")]))
+        cases += gen_api_mut(bits)
         # random longer sequences with forced repeats
         names = ["a", "b", "c", "d", "e", "f", ""]
         pool = full + API_WIDE
@@ -88,7 +147,9 @@ def gen_api(tier, seed):
             for _i in range(k):
                 n = rnd.choice(names[:3]) if rnd.random() < 0.3 else rnd.choice(names)
                 r = rnd.random()
-                if r < 0.5:
+                if r < 0.12:
+                    ops.append(rnd.choice(MUT_OPS))
+                elif r < 0.5:
                     ops.append("n:%s" % hexs(n))
                 elif r < 0.65 and last is not None:
                     ops.append("s:%s:%d" % (hexs(n), max(-P63, min(P63 - 1, last + rnd.choice((-1, 0, 0, 1))))))
@@ -105,24 +166,40 @@ def run(res, tier, seed, proof):
     acases = gen_api(tier, seed)
     ago, aml, amism, askipped = simple_run(lib, res, acases)
     rejected_then_ok = sum(1 for g in ago if "eo" in g.split()[0])
+    mcases = gen_mod(tier, seed)
+    mgo, mml, mmism, mskipped = simple_run(lib, res, mcases)
+    mouts = {}
+    for g in mgo:
+        mouts[g.split()[0]] = mouts.get(g.split()[0], 0) + 1
     outs = {}
     for g in go:
         outs[g.split()[0]] = outs.get(g.split()[0], 0) + 1
-    cov = dict(evaluations=len(cases) + len(acases),
-               distinct_nontrivial=len({c for c in cases if c.count(",") >= 1}) + len({c for c in acases if c.count(",") >= 1}),
+    cov = dict(evaluations=len(cases) + len(acases) + len(mcases),
+               distinct_nontrivial=len({c for c in cases + acases + mcases if c.count(",") >= 1}),
                rule="member sequences run through a real module and Type.resolve: exhaustive over %d literal forms for length 1-2, "
                     "over a 12-value core for length 3 (4 in thorough), forced name collisions, random longer sequences; "
                     "non-trivial = at least two members; observable = error presence, else name->value and value->name maps.  "
                     "Plus the EnumType API alone (NewEnumType/NewBitfield, Set, SetNext, NameMap, ValueMap): all call sequences of length <= 3 "
                     "over three names x %d/%d boundary values, all of length 4 over two names x the core boundary values (all values in "
                     "thorough), rejected-call-then-SetNext patterns, random sequences of 5-10 calls; observable = verdict of every call "
-                    "and the final maps (so the state after a rejected call is compared)" % (len(VALUES), len(API_ENUM), len(API_BITS)),
-               mismatches=mism + amism, skipped_unmodelled=skipped + askipped,
-               distribution=dict(impl_outcomes=outs, api_cases=len(acases), api_sequences_with_an_accepted_call_after_a_rejected_one=rejected_then_ok),
-               samples=[cases[40], cases[len(cases) // 2], cases[-1], acases[len(acases) // 2], acases[-1]],
-               sample_observations=[go[40], go[len(cases) // 2], go[-1], ago[len(acases) // 2], ago[-1]])
+                    "and the final state through every read accessor (NameMap, ValueMap, Names+Value+IsDefined, Values+Name), so the state after a "
+                    "rejected call is compared; call sequences also contain 'read NameMap/ValueMap/Names/Values and delete/overwrite/add "
+                    "in the returned container' steps (8 kinds, exhaustive between 1-2 calls before and 0-2 after), which must not change "
+                    "any view.  Plus members carrying other substatements (status current/deprecated/obsolete, description, reference, "
+                    "if-feature, before and after the value/position statement; %d combinations), in a typedef used by two leaves: exhaustive "
+                    "for length 1-2 over %d values, length 3 over 3 values x 5 combinations, duplicates/maximum next to an obsolete member, "
+                    "random longer; the containers obtained through the first leaf are edited before the type is observed through the "
+                    "second" % (len(VALUES), len(API_ENUM), len(API_BITS), len(SUBS), len(MODVALS)),
+               mismatches=mism + amism + mmism, skipped_unmodelled=skipped + askipped + mskipped,
+               distribution=dict(impl_outcomes=outs, api_cases=len(acases), api_sequences_with_an_accepted_call_after_a_rejected_one=rejected_then_ok,
+                                 api_cases_editing_a_returned_container=sum(1 for g in ago if "r" in g.split()[0][4:]),
+                                 substatement_cases=len(mcases), substatement_impl_outcomes=mouts,
+                                 substatement_cases_with_an_obsolete_member=sum(1 for c in mcases if "o" in "".join(x.split(":", 2)[2] for x in c.split()[2].split(",")))),
+               samples=[cases[40], cases[len(cases) // 2], cases[-1], acases[len(acases) // 2], acases[-1], mcases[len(mcases) // 2], mcases[-1]],
+               sample_observations=[go[40], go[len(cases) // 2], go[-1], ago[len(acases) // 2], ago[-1], mgo[len(mcases) // 2], mgo[-1]])
     return cov, ["member names are plain identifiers; through Type.resolve, after the first recorded error only the presence of an "
-                 "error is compared (the state after a rejected member is compared through the EnumType API sequences)"]
+                 "error is compared (the state after a rejected member is compared through the EnumType API sequences); member "
+                 "substatements other than value/position are drawn from status, description, reference, if-feature"]
 
 
 def replay(rep, res):
